@@ -71,6 +71,29 @@ def squash(s):
     return re.sub(r"\s+", "", s)
 
 
+def read_area(gm):
+    """(version, whole lib.rs, the items of the area).  tools/inventory.py parses every file in thirdparty.READS as a whole,
+    which src/lib.rs does not survive: the entry is taken out again and the area is listed through `external_sources`"""
+    version, _dir = thirdparty.crate_dir(gm, "termcolor", HARNESS)
+    lib = thirdparty.read_crate(gm, "termcolor", "src/lib.rs", HARNESS)
+    thirdparty.READS[:] = [r for r in thirdparty.READS if r[0] != "termcolor"]
+    return version, lib, area_source(lib)
+
+
+def external_sources(gm):
+    """for tools/inventory.py: the items of the area (exactly the text handed to rs2v), as a file under .cache/"""
+    try:
+        version, _lib, src = read_area(gm)
+    except TranslateError as e:
+        raise gm.GenError(str(e))
+    d = os.path.join(os.path.dirname(os.path.abspath(__file__)), "..", ".cache", "thirdparty")
+    os.makedirs(d, exist_ok=True)
+    p = os.path.join(d, "termcolor-%s-area.rs" % version)
+    with open(p, "w", encoding="utf-8") as f:
+        f.write(src)
+    return [("extern/termcolor-%s/src/lib.rs" % version, p)]
+
+
 # ---------------------------------------------------------------------------
 # cutting the items of the area out of a file the parser cannot read as a whole
 
@@ -438,9 +461,7 @@ def harness_render_source():
 def register(generators, gm):
     def gen():
         try:
-            version, _dir = thirdparty.crate_dir(gm, "termcolor", HARNESS)
-            lib = thirdparty.read_crate(gm, "termcolor", "src/lib.rs", HARNESS)
-            src = area_source(lib)
+            version, lib, src = read_area(gm)
             try:
                 items = parse_file(src)
             except (ParseError, LexError) as e:
